@@ -21,13 +21,20 @@ WORKERS = 8
 
 # ----------------------------------------------------------------------------- configs
 
+EQ_DEEP_FAMILIES = ["list", "vec", "hset", "struct", "box", "sim"]
+
+
 def equal_runs(tier, seed, work):
-    """(name, cfg) of the TLC runs of Equal.tla; the seed selects the sparse sub-tree of family "sim"."""
+    """(name, cfg) of the TLC runs of Equal.tla; the seed selects the sparse sub-tree of family "sim".
+    thorough: additionally every graph family with one more heap node, one run per family (memory)."""
     q = cfg_variant("MC_Equal_quick.cfg", work, {"SEED": seed, "BRANCH": 4}, f"s{seed}")
-    if tier == "quick":
-        return [("quick", q)]
-    t = cfg_variant("MC_Equal_thorough.cfg", work, {"SEED": seed, "BRANCH": 7}, f"s{seed}")
-    return [("quick", q), ("deep", t)]
+    runs = [("quick", q)]
+    if tier != "quick":
+        for fam in EQ_DEEP_FAMILIES:
+            runs.append(("deep_" + fam, cfg_variant("MC_Equal_thorough.cfg", work,
+                                                    {"SEED": seed, "BRANCH": 5, "FAMSEL": '{"%s"}' % fam},
+                                                    f"{fam}_s{seed}")))
+    return runs
 
 
 def cfg_variant(cfg, work, subst, suffix):
@@ -80,6 +87,8 @@ def eq_observations(c, probes):
                 exp = p["eq"] if eqp == "t" else p["ne"]
             else:
                 exp = p["eq"] if same == "1" else p["ne"]
+            if exp == "*":
+                continue
             obs.append({"probe": p["name"], "src": subst(p["tpl"], x, y), "exp": exp, "ft": ft,
                         "eqv": p["eq"], "nev": p["ne"], "x": int(xi), "y": int(yi)})
     return obs
@@ -103,7 +112,7 @@ def direction(o, got):
         return "ok"
     if o["exp"] == o["nev"] and got == o["eqv"]:
         return "fp"      # Steel says "equal / found", the model says different
-    if o["exp"] == o["eqv"] and got == o["nev"]:
+    if o["exp"] == o["eqv"] and (got == o["nev"] or (o["nev"] == "*" and got == "#false")):
         return "fn"      # Steel says "different / not found", the model says equal
     return "other"
 
@@ -138,8 +147,10 @@ def judge_equal(r, pairs, stats):
                 break
         # oracle-free: the observed equal? relation on the heap nodes is an equivalence
         bad += equivalence_defects(obs, emits)
+        account(r, case, not bad, eq_nontrivial(obs))
         if not bad:
-            stats["passing"].append(case)
+            if len(stats["passing"]) < 200:
+                stats["passing"].append(case)
             continue
         stats["failing_cases"] += 1
         for o, got, d in bad:
@@ -195,39 +206,262 @@ def equivalence_defects(obs, emits):
 
 # ----------------------------------------------------------------------------- driver
 
+CHUNK = 4000
+
+
 def run_equal(r, tier, seed, work, stats):
-    runs = []
-    for name, cfg in equal_runs(tier, seed, work):
-        runs.append((name, vlib.run_tlc("Equal", cfg, os.path.join(work, "eq_" + name), workers=WORKERS,
-                                        timeout=1200)))
-    allc = []
+    """TLC run by TLC run, chunk by chunk (the expanded observations of a chunk are dropped after judging).
+    Returns one (case, obs, head) triple usable by the self-test."""
     seen = set()
-    for name, res in runs:
+    keep = None
+    for name, cfg in equal_runs(tier, seed, work):
+        res = vlib.run_tlc("Equal", cfg, os.path.join(work, "eq_" + name), workers=WORKERS, timeout=1500)
         r.add_tlc(res)
         pr = probes_of(res)
-        for c in res["cases"]:
-            case, obs, head = eq_case(c, pr["probes"], pr["base"], "E")
-            if case["id"] in seen:
-                continue
-            seen.add(case["id"])
-            allc.append((case, obs, head))
-    verdicts = vlib.replay([c for c, _, _ in allc], work, jobs=12, timeout_ms=8000, name="equal")
-    judge_equal(r, [(c, o, h, v) for (c, o, h), v in zip(allc, verdicts)], stats)
-    return allc
+        raw = res["cases"]
+        res["cases"] = None
+        for i in range(0, len(raw), CHUNK):
+            allc = []
+            for c in raw[i:i + CHUNK]:
+                case, obs, head = eq_case(c, pr["probes"], pr["base"], "E")
+                if case["id"] in seen:
+                    continue
+                seen.add(case["id"])
+                allc.append((case, obs, head))
+            verdicts = vlib.replay([c for c, _, _ in allc], work, jobs=12, timeout_ms=8000,
+                                   name=f"equal_{name}_{i // CHUNK}")
+            judge_equal(r, [(c, o, h, v) for (c, o, h), v in zip(allc, verdicts)], stats)
+            if keep is None:
+                for case, obs, head in allc:
+                    if any(o["probe"] == "equal" and o["ft"] == "" for o in obs):
+                        keep = (case, obs, head)
+                        break
+        del raw
+    return [keep] if keep else []
+
+
+# ----------------------------------------------------------------------------- Collections
+
+def uni(t):
+    """The spec writes ~ and ^ for U+03BB and U+039B (TLA+ strings are kept ASCII)."""
+    return t.replace("~", "\u03bb").replace("^", "\u039b")
+
+
+def coll_case(c):
+    src = uni(c["src"])
+    h = hashlib.sha1(src.encode()).hexdigest()[:12]
+    return {"id": f"K-{h}", "fresh": False, "tag": "coll:" + c["ty"],
+            "steps": [{"src": src, "class": c["class"], "emit": [uni(e) for e in c["emit"]]}],
+            "meta": {"ty": c["ty"], "labs": c["labs"], "optags": c["optags"], "mode": c["mode"]}}
+
+
+def class_ok(expected, got):
+    if expected == "ok":
+        return got == "ok"
+    if expected == "err":
+        return got.startswith("err:")
+    if expected == "noncrash":
+        return got == "ok" or got.startswith("err:")
+    return False
+
+
+def coll_failure(case, v):
+    """None if the case agrees with the model, else (tag, why) for the first disagreement."""
+    st = case["steps"][0]
+    m = case["meta"]
+    got = v["got"][0] if v.get("got") else {"class": "none", "emit": [], "msg": v.get("why")}
+    gcls = re.sub(r"\(rc=.*\)", "", got["class"])
+    emits = got.get("emit") or []
+    exp = st["emit"]
+    for i, e in enumerate(exp):
+        if i >= len(emits):
+            break
+        if emits[i] != e:
+            step, q = m["labs"][i].split(":", 1)
+            step = int(step)
+            op = "base" if step == 0 else ("final" if step == 99 else m["optags"][step - 1])
+            return (f"coll|{m['ty']}|obs={q}|op={op}|ops={','.join(m['optags'])}",
+                    f"emit[{i}] ({m['labs'][i]}): expected [{e}] got [{emits[i]}]")
+    if gcls in ("hang", "crash", "none"):
+        # the process died (no observation survives): attribute to the last operation of the sequence
+        op = m["optags"][-1] if m["optags"] else "base"
+        return (f"coll|{m['ty']}|class|op={op}|exp={st['class']}|got={gcls}",
+                f"class: expected {st['class']} got {got['class']} (process died)")
+    if len(emits) < len(exp):
+        # died before all expected observations were made: the operation after emit #len(emits)
+        i = len(emits)
+        step = int(m["labs"][i].split(":", 1)[0])
+        step = len(m["optags"]) if step == 99 else step
+        op = "base" if step == 0 else m["optags"][step - 1]
+        return (f"coll|{m['ty']}|class|op={op}|exp=ok|got={gcls}",
+                f"class: expected a value for step {step} ({m['labs'][i]}), got {got['class']}: {got.get('msg')}")
+    if len(emits) > len(exp) or not class_ok(st["class"], got["class"]):
+        op = m["optags"][-1] if m["optags"] else "base"
+        return (f"coll|{m['ty']}|class|op={op}|exp={st['class']}|got={gcls}",
+                f"class: expected {st['class']} got {got['class']} (extra emits {emits[len(exp):]}): {got.get('msg')}")
+    return None
+
+
+def budget_filter(cases, findings, seed, stats):
+    """Known findings that make the process hang or abort cost seconds per case: keep only a few
+    (seeded) cases whose last operation is one of those (entry field `budget`)."""
+    rnd = random.Random(seed)
+    out = list(cases)
+    for f in findings:
+        b = f.get("budget")
+        if not b or PROP not in f.get("properties", []):
+            continue
+        rx = re.compile(b["optag_regex"])
+        hit = [c for c in out if c["meta"]["optags"] and rx.search(c["meta"]["optags"][-1])]
+        if len(hit) > b["keep"]:
+            keep = set(id(c) for c in rnd.sample(sorted(hit, key=lambda c: c["id"]), b["keep"]))
+            out = [c for c in out if c not in hit or id(c) in keep]
+            stats["budget_dropped"][f["key"]] = len(hit) - b["keep"]
+    return out
+
+
+def run_collections(r, tier, seed, work, stats):
+    sub = {"SEED": seed}
+    if tier != "quick":
+        sub.update({"KSP": 6, "BRANCH": 5})
+    cfg = cfg_variant("MC_Collections_quick.cfg", work, sub, f"{tier}_s{seed}")
+    res = vlib.run_tlc("Collections", cfg, os.path.join(work, "coll"), workers=WORKERS, timeout=1200)
+    r.add_tlc(res)
+    cases, seen = [], set()
+    for c in res["cases"]:
+        k = coll_case(c)
+        if k["id"] not in seen:
+            seen.add(k["id"])
+            cases.append(k)
+    cases = budget_filter(cases, r.findings, seed, stats)
+    verdicts = vlib.replay([{k: v for k, v in c.items() if k not in ("meta", "_passed")} for c in cases], work, jobs=12,
+                           timeout_ms=4000, name="coll")
+    reported = 0
+    for c, v in zip(cases, verdicts):
+        stats["coll_cases"] += 1
+        stats["coll_observations"] += len(c["steps"][0]["emit"]) + 1
+        bad = coll_failure(c, v)
+        account(r, c, bad is None, coll_nontrivial(c))
+        c["_passed"] = bad is None
+        if bad is None:
+            if len(stats["passing"]) < 400:
+                stats["passing"].append({k: v for k, v in c.items() if k not in ("meta", "_passed")})
+            continue
+        tag, why = bad
+        stats["coll_failing"] += 1
+        mc = {"id": c["id"], "fresh": False, "tag": tag, "steps": c["steps"]}
+        mv = {"pass": False, "why": why}
+        grp = stats["groups"].setdefault(re.sub(r"\|ops=.*", "", tag), [0, c["steps"][0]["src"], why])
+        grp[0] += 1
+        f = vlib.match_finding(PROP, mc, mv, r.findings)
+        if f:
+            r.known.setdefault(f["key"], f["what"])
+            stats["by_finding"][f["key"]] = stats["by_finding"].get(f["key"], 0) + 1
+        else:
+            reported += 1
+            if reported <= 40:
+                r.fail_case(mc, mv)
+            else:
+                stats["unreported_violations"] += 1
+    return cases
 
 
 def new_stats():
     return {"observations": 0, "mismatches": 0, "failing_cases": 0, "passing": [], "by_finding": {},
-            "unreported_violations": 0, "groups": {}}
+            "unreported_violations": 0, "groups": {}, "coll_cases": 0, "coll_observations": 0,
+            "coll_failing": 0, "budget_dropped": {}}
+
+
+def account(r, case, passed, nontrivial):
+    """Evidence bookkeeping for one replayed case (vlib.Result.add_cases without its verdict policy:
+    failures of this check are judged per observation, see judge_equal / coll_failure)."""
+    r.cov["evaluations"] += 1
+    if passed:
+        r.cov["traces_validated_against_impl"] += 1
+    if nontrivial:
+        h = hashlib.sha1(json.dumps(case.get("steps"), sort_keys=True).encode()).hexdigest()
+        r._nontrivial.add(h)
+    r.cov["distinct_nontrivial"] = len(r._nontrivial)
+
+
+def eq_nontrivial(obs):
+    """An Equal case is non-trivial when among its pairs of DIFFERENT handles both answers occur:
+    some pair is structurally equal and some pair is not."""
+    t = any(o["probe"] == "equal" and o["x"] != o["y"] and o["exp"] == "#true" for o in obs)
+    f = any(o["probe"] == "equal" and o["exp"] == "#false" for o in obs)
+    return t and f
+
+
+def coll_nontrivial(case):
+    """A Collections case is non-trivial when it has >= 2 operations, or ends outside the domain of
+    its last operation (expected error / unspecified)."""
+    return len(case["meta"]["optags"]) >= 2 or case["steps"][0]["class"] != "ok"
+
+
+def selftest(r, eq_all, coll_all, work):
+    """Mutant oracle: one deliberately wrong expectation per half must be reported by the replayer
+    and by this module's judges, and must not be swallowed by a known finding."""
+    # Equal: flip the expectation of a feature-free equal? observation
+    done = False
+    for case, obs, head in eq_all:
+        for o in obs:
+            if o["probe"] == "equal" and o["ft"] == "" and o["exp"] in ("#true", "#false"):
+                wrong = dict(o, exp="#false" if o["exp"] == "#true" else "#true")
+                mc, _ = micro_case(case, head, wrong, "?", "?")
+                mc["id"] = "SELFTEST-E"
+                v = vlib.replay([mc], work, jobs=1, name="selftest_e")[0]
+                got = v["got"][-1]["emit"][0] if v["got"] and v["got"][-1]["emit"] else None
+                d = direction(wrong, got)
+                mc2, mv2 = micro_case(case, head, wrong, got, d)
+                if v["pass"] or d == "ok" or vlib.match_finding(PROP, mc2, mv2, r.findings):
+                    raise vlib.ToolError(f"self-test: a wrong equal? expectation was not reported ({mc['steps'][-1]['src']})")
+                done = True
+                break
+        if done:
+            break
+    if eq_all and not done:
+        raise vlib.ToolError("self-test: no feature-free equal? observation to mutate")
+    # Collections: corrupt the last expected observation of a passing ok-case
+    for c in coll_all:
+        st = c["steps"][0]
+        if st["class"] == "ok" and st["emit"] and c.get("_passed"):
+            m = json.loads(json.dumps({k: v for k, v in c.items() if k != "_passed"}))
+            m["id"] = "SELFTEST-K"
+            m["steps"][0]["emit"][-1] = m["steps"][0]["emit"][-1] + "x"
+            v = vlib.replay([{k: x for k, x in m.items() if k != "meta"}], work, jobs=1, name="selftest_k")[0]
+            bad = coll_failure(m, v)
+            if v["pass"] or bad is None or vlib.match_finding(
+                    PROP, {"id": "x", "tag": bad[0], "steps": m["steps"]}, {"why": bad[1]}, r.findings):
+                raise vlib.ToolError("self-test: a wrong collection expectation was not reported")
+            return
+    if coll_all:
+        raise vlib.ToolError("self-test: no passing collection case to mutate")
 
 
 def run(tier, seed):
     work = os.path.join(vlib.WORK, PROP)
     r = vlib.Result(PROP, tier, seed)
     stats = new_stats()
-    run_equal(r, tier, seed, work, stats)
-    r.notes.append({k: v for k, v in stats.items() if k not in ("passing", "groups")})
-    vlib.log(json.dumps({k: v for k, v in stats.items() if k not in ("passing", "groups")}))
+    only = os.environ.get("C11_ONLY")
+    eq_all = run_equal(r, tier, seed, work, stats) if only in (None, "", "equal") else []
+    coll_all = run_collections(r, tier, seed, work, stats) if only in (None, "", "coll") else []
+    selftest(r, eq_all, coll_all, work)
+    rnd = random.Random(seed)
+    for c in rnd.sample(stats["passing"], min(6, len(stats["passing"]))):
+        r.cov["samples"].append({"id": c["id"], "tag": c["tag"],
+                                 "src": c["steps"][-1]["src"][:600], "emit": c["steps"][-1].get("emit", [])[:12]})
+    r.cov["rule"] = ("Equal.tla: every heap (DAG with sharing) of the listed families, every ordered pair of its nodes / "
+                     "unshared copies / one-leaf mutants, each probed with equal? both ways, eqv?/eq? where R7RS "
+                     "determines them and the hash battery; non-trivial = among pairs of different handles both a "
+                     "structurally equal and an unequal pair occur.  Collections.tla: every sequence of <= KEX "
+                     "operations and a seeded sparse sub-tree of longer ones per collection type; non-trivial = >= 2 "
+                     "operations or ending outside the last operation's domain.")
+    r.cov["exhaustive"] = True
+    r.assumptions.append("hash probes observe one hasher instance per process; Steel's hash-map iteration order is "
+                         "treated as unspecified and never observed")
+    summary = {k: v for k, v in stats.items() if k not in ("passing", "groups")}
+    r.notes.append(summary)
+    vlib.log(json.dumps(summary))
     if os.environ.get("C11_DEBUG"):
         with open(os.path.join(work, "groups.json"), "w") as f:
             json.dump(stats["groups"], f, indent=1)
